@@ -370,8 +370,9 @@ def run(pid, tier, seed, a):
     evidence["violations"] = len(violations)
     evidence["unrealised_candidates"] = [f"{ob['target']}:{ob['block']} {ob['msg']}" for ob, _ in unrealised]
     evidence["wall_s"] = round(time.time() - t0, 1)
-    for kf in known_hits:
-        print(f"KNOWN-FINDING: property={pid} {kf['what']}")
+    evidence["known_findings"] = sorted({kf["what"] for kf in known_hits})
+    for what in evidence["known_findings"]:
+        print(f"KNOWN-FINDING: property={pid} {what}")
     summary = {}
     for s in samples:
         if s["z3"] == "unsat" and s["cvc5"] == "unsat":
@@ -405,10 +406,17 @@ def run(pid, tier, seed, a):
 
 
 def match_known(known, pid, ob, rp):
-    for k in known:
-        if k["pid"] == pid and k["harness"] == ob["target"] and k["check"] in (rp.get("member") or ""):
-            return k
-    return None
+    """A reproduced violation is a known finding only if EVERY deviating member of the native family
+    (dev and release) is covered by an entry for this property + target; a member no entry covers is
+    a new violation and is reported as such."""
+    entries = [k for k in known if k["pid"] == pid and k["harness"] == ob["target"]]
+    members = rp.get("members") or ([rp["member"]] if rp.get("member") else [])
+    if not entries or not members:
+        return None
+    for m in members:
+        if not any(k["check"] in m for k in entries):
+            return None
+    return entries[0]
 
 
 # ------------------------------------------------------------------ native replay
@@ -495,7 +503,7 @@ def replay_spec(pid, ctx, ob, q, solver, a):
         _NATIVE_CACHE[key] = lines
     lines = _NATIVE_CACHE[key]
     mism = [l for l in lines if "SPEC-REPLAY MISMATCH" in l]
-    res = {"reproduced": bool(mism), "path": path, "model": model, "member": mism[0] if mism else None,
+    res = {"reproduced": bool(mism), "path": path, "model": model, "member": mism[0] if mism else None, "members": mism,
            "note": "" if mism else "no case of the native family deviates from the statement: " + "; ".join(lines[:2])}
     with open(path, "w") as f:
         f.write(f"# spec clause violated in the encoding of {ob['target']}: {ob['msg']}\n# SMT model: {json.dumps(model)}\n")
